@@ -139,6 +139,28 @@ getBaseAttrValue(DOMNode *node){
 }
 
 // ---------------------------------------------------------------------------
+// utility func to fix up the Base attr value an element brings along when it
+// replaces an xinclude element. A relative path was relative to the place the
+// element came from, given by newBase (itself relative to the xinclude
+// element's parent); an absolute value is not affected by the inclusion.
+// ---------------------------------------------------------------------------
+static void
+fixupOwnBaseAttrValue(DOMElement *elem, const XMLCh *newBase){
+    const XMLCh *ownBase = getBaseAttrValue(elem);
+    if (ownBase == NULL || newBase == NULL){
+        return;
+    }
+    if (*ownBase == chNull){
+        /* an empty value does not change the base */
+        elem->setAttribute(XIncludeUtils::fgXIBaseAttrName, newBase);
+    } else if (*ownBase != chForwardSlash && !XMLUri::isValidURI(false, ownBase)){
+        XIncludeLocation xil(ownBase);
+        xil.prependPath(newBase);
+        elem->setAttribute(XIncludeUtils::fgXIBaseAttrName, xil.getLocation());
+    }
+}
+
+// ---------------------------------------------------------------------------
 //  This method assumes that currentNode is an xinclude element and parses
 //   it accordingly, acting on what it finds.
 // ---------------------------------------------------------------------------
@@ -304,13 +326,9 @@ XIncludeUtils::doDOMNodeXInclude(DOMNode *xincludeNode, DOMDocument *parsedDocum
                             /* need to calculate the proper path difference to get the relativePath */
                             ((DOMElement*)newNode)->setAttribute(fgXIBaseAttrName, getBaseAttrValue(fallback->getParentNode()));
                         } else {
-                            /* the included node has base of its own which takes precedence */
-                            XIncludeLocation xil(getBaseAttrValue(newNode));
-                            if (getBaseAttrValue(fallback->getParentNode()) != NULL){
-                                /* prepend any specific base modification of the xinclude node */
-                                xil.prependPath(getBaseAttrValue(fallback->getParentNode()));
-                            }
-                            ((DOMElement*)newNode)->setAttribute(fgXIBaseAttrName, xil.getLocation());
+                            /* the included node has base of its own which takes precedence;
+                               it is subject to any specific base modification of the xinclude node */
+                            fixupOwnBaseAttrValue((DOMElement*)newNode, getBaseAttrValue(fallback->getParentNode()));
                         }
                     }
                     DOMNode *newChild = frag->appendChild(newNode);
@@ -519,13 +537,9 @@ XIncludeUtils::doXIncludeXMLFileDOM(const XMLCh *href,
                     /* need to calculate the proper path difference to get the relativePath */
                     topLevelElement->setAttribute(fgXIBaseAttrName, relativeHref);
                 } else {
-                    /* the included node has base of its own which takes precedence */
-                    XIncludeLocation xil(getBaseAttrValue(topLevelElement));
-                    if (getBaseAttrValue(includeNode) != NULL){
-                        /* prepend any specific base modification of the xinclude node */
-                        xil.prependPath(getBaseAttrValue(includeNode));
-                    }
-                    topLevelElement->setAttribute(fgXIBaseAttrName, xil.getLocation());
+                    /* the included node has base of its own which takes precedence;
+                       it is relative to the included document */
+                    fixupOwnBaseAttrValue(topLevelElement, relativeHref);
                 }
             }
         }
